@@ -291,6 +291,12 @@ func visitInstr(fr *frame, instr ssa.Instruction) continuation {
 		p := nilCheck(fr.get(instr.X).(*value))
 		s, ok := (*p).(structure)
 		if !ok {
+			if op, isOp := (*p).(*opaque); isOp && strings.HasPrefix(op.kind, "env:") {
+				// a field of an environment object (metrics, tracing): another environment value
+				cell := envValue(mustDeref(instr.Type()))
+				fr.env[instr] = &cell
+				break
+			}
 			panic(unsupported{fmt.Sprintf("field access into %T (%s)", *p, instr.X.Type())})
 		}
 		fr.env[instr] = &s[instr.Field]
@@ -515,6 +521,8 @@ func (ex *Exec) callSSA(caller *frame, callpos token.Pos, fn *ssa.Function, args
 	return fr.result
 }
 
+var traceUnsupported = os.Getenv("VERIF_TRACE") != ""
+
 func runFrame(fr *frame) {
 	defer func() {
 		if fr.block == nil {
@@ -522,7 +530,12 @@ func runFrame(fr *frame) {
 		}
 		r := recover()
 		switch r := r.(type) {
-		case unsupported, pathEnd:
+		case unsupported:
+			if traceUnsupported {
+				r.why += " | in " + fr.fn.String()
+			}
+			panic(r)
+		case pathEnd:
 			panic(r)
 		case targetPanic:
 			fr.panicking = true
